@@ -1,6 +1,6 @@
 """C10 — stale, replayed, mis-typed or unbound handshakes are rejected (DESIGN.md 4/C10)."""
 from ..mir import Callee, last_seg, loc, op_const, op_int, op_place
-from .common import (const_cmp_of_switch, err_return_reachable_only, gates_of_value, ok_some_blocks, returns_variant,
+from .common import (ty_kind, const_cmp_of_switch, err_return_reachable_only, gates_of_value, ok_some_blocks, returns_variant,
                      success_edge_dominates)
 
 EXPLANATION = (
@@ -75,15 +75,36 @@ def accept_blocks_of(body):
 def run(ctx):
     prog = ctx.prog
     # ---------------- V1a: the 2022 window function ------------------------------------------
-    vt = [b for b in prog.prod_bodies() if b.root == b.defp and any(c.method == "abs_diff" for (_, c, _) in b.calls())]
-    ctx.floor("V1a", "functions comparing abs_diff(now, ts) with a constant", 1, len(vt))
+    # by role: a workspace function returning Result that a Shadowsocks decoder calls on a u64 read from the header
+    cand = {}
+    for b in prog.prod_bodies():
+        if "shadowsocks" not in b.defp:
+            continue
+        for (blk, c, t) in b.calls():
+            if not c.target.startswith("octo_squirrel") or not t["args"]:
+                continue
+            callee = prog.body(c.target)
+            if callee is None or ty_kind(callee.local_ty(0)) != "result" or callee.argc != 1 or callee.local_ty(1) != "u64":
+                continue
+            p = op_place(t["args"][0])
+            if p is None:
+                continue
+            _, calls, _ = b.slice_back([p[0]])
+            if any(cc.name == "Buf::get_u64" for (_, cc, _) in calls):
+                cand[callee.defp] = callee
+    for b in prog.prod_bodies():
+        if b.root == b.defp and "shadowsocks" in b.defp and any(c.method == "abs_diff" for (_, c, _) in b.calls()):
+            cand[b.defp] = b
+    vt = sorted(cand.values(), key=lambda b: b.defp)
+    ctx.floor("V1a", "timestamp window functions (called by 2022 decoders on a header u64)", 1, len(vt))
     vt_paths = set()
     for body in vt:
         rv = returns_variant(body)
         acc = [b for b, v in rv.items() if v == "Ok"]
-        n = window_rule(ctx, body, "V1a", {"abs_diff"}, WINDOW_2022, acc, "ss2022")
+        n = window_rule(ctx, body, "V1a", {"abs_diff", "abs"}, WINDOW_2022, acc, "ss2022")
         if n == 0:
-            ctx.ob("V1a", body.defp, "ss2022:window-comparison", loc(body.sp), False, "no comparison of abs_diff with a constant found")
+            ctx.ob("V1a", body.defp, "ss2022:window-comparison", loc(body.sp), False,
+                   "no two-sided window: the function never compares |now - timestamp| (abs_diff/abs) with a constant, so stale or future timestamps pass")
         vt_paths.add(body.defp)
         # `now` must come from the system clock
         ok = any("SystemTime" in c.target or c.target.endswith("::now") for (_, c, _) in body.calls())
